@@ -1,4 +1,4 @@
-\* M+G (thorough, exhaustive, flat): <= 4 members over the size classes 1, 2, 8, pointer; scalars and arrays of 2; both pointer sizes
+\* M+G (thorough, 1 case in 2 of the exhaustive enumeration - residue class chosen by the seed, flat): <= 4 members over the size classes 1, 2, 8, pointer; scalars and arrays of 2; both pointer sizes
 CONSTANTS
   RawT = {"B", "h", "q", "P"}
   ArrN = {2}
@@ -14,7 +14,7 @@ CONSTANTS
   BitSplits <- BitSplitsNone
   PS = {32, 64}
   VCs = {"pat"}
-  Stride = 1
+  Stride = 2
   Dev = {}
   Mode = "gen"
 INIT Init
